@@ -675,6 +675,240 @@ fn session_case(ctx: &mut Ctx, variant: usize) {
     drop(provider);
 }
 
+// ---- concurrent inputs to ONE session.  The gate (`race`, `race_point`) is copied from
+// harness/src/bin/c07.rs (builder run07b): `stepped = false` releases n OS threads together through a
+// spin gate (a race, many rounds); `stepped = true` is deterministic - every caller is held at the
+// rip_verif point `session.spawn.guarded` (after the started-guard, before the run task is spawned); the
+// next caller starts only when the previous one sits at the point or has returned (condvar, no clock);
+// then all are released.  With an atomic guard exactly one caller reaches the point, with
+// check-then-set all n do and all n are accepted.
+thread_local! {
+    static RACER: std::cell::Cell<Option<usize>> = const { std::cell::Cell::new(None) };
+}
+#[derive(Default)]
+struct RaceState {
+    parked: std::collections::BTreeSet<usize>,
+    finished: std::collections::BTreeSet<usize>,
+    released: bool,
+}
+static RACE: std::sync::Mutex<Option<RaceState>> = std::sync::Mutex::new(None);
+static RACE_CV: std::sync::Condvar = std::sync::Condvar::new();
+/// how often a racer was seen parked at the guard point (tells whether the hook point exists in this tree)
+static RACE_PARKS: std::sync::atomic::AtomicU64 = std::sync::atomic::AtomicU64::new(0);
+
+/// called from the global hook
+fn race_point() {
+    let Some(me) = RACER.with(|r| r.get()) else { return };
+    let mut g = RACE.lock().unwrap();
+    let Some(st) = g.as_mut() else { return };
+    st.parked.insert(me);
+    RACE_PARKS.fetch_add(1, std::sync::atomic::Ordering::SeqCst);
+    RACE_CV.notify_all();
+    while !g.as_ref().map(|s| s.released).unwrap_or(true) {
+        g = RACE_CV.wait(g).unwrap();
+    }
+}
+
+/// `n` threads run `f(i)` (true = the input was accepted) against one session; returns how many were accepted
+fn race<F: Fn(usize) -> bool + Sync>(n: usize, stepped: bool, f: F) -> u32 {
+    use std::sync::atomic::Ordering;
+    let gate = std::sync::atomic::AtomicUsize::new(0);
+    *RACE.lock().unwrap() = if stepped { Some(RaceState::default()) } else { None };
+    let accepted = std::thread::scope(|sc| {
+        let mut hs = vec![];
+        for i in 0..n {
+            let (f, gate) = (&f, &gate);
+            hs.push(sc.spawn(move || {
+                if stepped {
+                    RACER.with(|r| r.set(Some(i)));
+                } else {
+                    gate.fetch_add(1, Ordering::SeqCst);
+                    while gate.load(Ordering::SeqCst) < n {
+                        std::hint::spin_loop();
+                    }
+                }
+                let ok = std::panic::catch_unwind(std::panic::AssertUnwindSafe(|| f(i))).unwrap_or(false);
+                if stepped {
+                    let mut g = RACE.lock().unwrap();
+                    if let Some(st) = g.as_mut() {
+                        st.finished.insert(i);
+                    }
+                    RACE_CV.notify_all();
+                }
+                ok
+            }));
+            if stepped {
+                // the next thread starts only when this one sits at the guard point or is through (no clock involved)
+                let mut g = RACE.lock().unwrap();
+                while !g.as_ref().map(|s| s.parked.contains(&i) || s.finished.contains(&i)).unwrap_or(true) {
+                    g = RACE_CV.wait(g).unwrap();
+                }
+            }
+        }
+        if stepped {
+            if let Some(st) = RACE.lock().unwrap().as_mut() {
+                st.released = true;
+            }
+            RACE_CV.notify_all();
+        }
+        hs.into_iter().map(|h| h.join().unwrap_or(false)).filter(|b| *b).count() as u32
+    });
+    *RACE.lock().unwrap() = None;
+    accepted
+}
+
+/// the input of a raced session: the kernel's stub run, or a tool envelope (the run then threads its
+/// counter through the tool runner: started / stdout / ended frames)
+fn race_input(tool: bool, k: u32) -> String {
+    if tool {
+        json!({"tool": "ls", "args": {"path": "."}}).to_string()
+    } else {
+        format!("concurrent input {k}")
+    }
+}
+
+/// `rounds` fresh sessions; to each, `n` clients post the same input at the same instant
+/// (`SessionEngine::spawn_session` on clones of the handle - what POST /sessions/{id}/input calls).
+/// Oracle (C01's, on the file): every stream of events.jsonl is 0,1,2,.. in file order and a validated
+/// replay of a fresh EventLog succeeds.  Stepped rounds are also compared with the model
+/// (Model/SessGuard.v: the guard as built, played on the forced schedule, then the accepted runs).
+fn session_race(ctx: &mut Ctx, wsg: &mut CaseWriter, n: usize, stepped: bool, rounds: u32, tool: bool) {
+    let scratch = Scratch::new("c01g");
+    let data_dir = scratch.path().join("data");
+    let ws = scratch.path().join("ws");
+    std::fs::create_dir_all(&data_dir).unwrap();
+    std::fs::create_dir_all(&ws).unwrap();
+    let _ = std::fs::write(ws.join("a.txt"), b"hello\n");
+    let rt = tokio::runtime::Builder::new_multi_thread().worker_threads(4).enable_all().build().unwrap();
+    let log_path = data_dir.join("events.jsonl");
+    let engine = {
+        let _g = rt.enter();
+        match ripd::SessionEngine::new(data_dir.clone(), ws.clone(), None) {
+            Ok(e) => Arc::new(e),
+            Err(_) => return,
+        }
+    };
+    let read = |path: &std::path::Path| -> Vec<Hdr> {
+        let bytes = std::fs::read(path).unwrap_or_default();
+        let cut = bytes.iter().rposition(|b| *b == b'\n').map(|i| i + 1).unwrap_or(0);
+        parse_log(&bytes[..cut]).unwrap_or_default()
+    };
+    let ended = |hs: &[Hdr]| hs.iter().filter(|h| matches!(h.ev.kind, rip_kernel::EventKind::SessionEnded { .. })).count() as u64;
+    // generous and load-independent: waits for the frames, the clock only bounds a run that never ends
+    let wait_ended = |want: u64| -> bool {
+        for _ in 0..2400 {
+            if ended(&read(&log_path)) >= want {
+                std::thread::sleep(Duration::from_millis(60));
+                return true;
+            }
+            std::thread::sleep(Duration::from_millis(25));
+        }
+        false
+    };
+    rip_kernel::verif::set_hook(Some(Arc::new(|name: &'static str| {
+        if name == "session.spawn.guarded" {
+            race_point();
+        }
+    })));
+    // calibration: what ONE run of this input writes (an un-raced session)
+    let h = rt.handle().clone();
+    let cal = engine.create_session();
+    {
+        let _g = h.enter();
+        engine.spawn_session(cal.clone(), race_input(tool, 0), None, None);
+    }
+    let cal_ok = wait_ended(1);
+    let run_codes: Vec<u64> = read(&log_path).iter().filter(|x| x.sid == cal.session_id).map(|x| x.code).collect();
+    let mut total: u64 = 1;
+    let mut sessions: Vec<(String, u32)> = vec![];
+    let parks_before = RACE_PARKS.load(std::sync::atomic::Ordering::SeqCst);
+    for r in 0..rounds {
+        let handle = engine.create_session();
+        let text = race_input(tool, r + 1);
+        let accepted = race(n, stepped, |_who| {
+            let _g = h.enter();
+            engine.spawn_session(handle.clone(), text.clone(), None, None)
+        });
+        total += accepted as u64;
+        sessions.push((handle.session_id.clone(), accepted));
+    }
+    let done = cal_ok && wait_ended(total);
+    rip_kernel::verif::set_hook(None);
+    let parks = RACE_PARKS.load(std::sync::atomic::Ordering::SeqCst) - parks_before;
+    let kind = format!("session_inputs_{}_{}x{}", if stepped { "stepped" } else { "raced" }, n, if tool { "tool" } else { "stub" });
+    ctx.res.bump_by(&format!("kind={kind}"), rounds as u64);
+    ctx.res.bump_by("session_race_inputs_accepted", total - 1);
+    ctx.res.bump_by("session_race_inputs_sent", rounds as u64 * n as u64);
+    if stepped {
+        ctx.res.bump_by("session_race_parked_at_guard_point", parks);
+    }
+    if !done {
+        ctx.res.bump("session_race_runs_not_ended_in_time");
+    }
+    let hs = read(&log_path);
+    let fresh = rip_log::EventLog::new(&log_path).and_then(|l| l.replay_validated().map(|_| ()));
+    let replay = |sid: &str, accepted: u32, seqs: &[u64]| json!({"session_inputs": {"clients": n, "stepped": stepped, "tool_input": tool, "accepted": accepted, "session": sid, "seqs_in_file_order": seqs}});
+    let mut flagged = 0;
+    for (sid, accepted) in &sessions {
+        ctx.res.evaluations += 1;
+        ctx.leaves += 1;
+        ctx.res.oracle_checks += 1;
+        let stream: Vec<&Hdr> = hs.iter().filter(|x| x.sid == *sid).collect();
+        let seqs: Vec<u64> = stream.iter().map(|x| x.seq).collect();
+        let in_order = seqs.iter().enumerate().all(|(i, s)| *s == i as u64);
+        if n >= 2 {
+            ctx.distinct.add(&format!("{kind}{sid}"));
+        }
+        let mut case_id = -1i64;
+        if stepped && !ctx.oracle_only && done {
+            let mut obs = vec![*accepted as u64, in_order as u64];
+            for x in &stream {
+                obs.extend([0, x.seq, x.code]);
+            }
+            // the forced schedule: every caller takes its first guard step in turn, then (check-then-set only)
+            // the held callers take their second
+            let sched: Vec<u64> = (0..n as u64).chain(0..n as u64).collect();
+            let id = wsg.push(format!(
+                "{{| sg_n := {}; sg_ts := [{}]; sg_sched := {}; sg_expect := {} |}}",
+                n,
+                run_codes.iter().map(|c| coq_etype(*c)).collect::<Vec<_>>().join("; "),
+                coq_list_n(&sched),
+                coq_list_n(&obs)
+            ));
+            case_id = id as i64;
+            if ctx.res.case_index.len() < 3000 {
+                ctx.res.case_index.insert(id.to_string(), replay(sid, *accepted, &seqs));
+            }
+        }
+        if !in_order && flagged < 3 && ctx.res.oracle_violations.len() < 20 {
+            flagged += 1;
+            // executable class: a session stream that restarts at 0 while more than one input was accepted
+            let class = if *accepted > 1 && seqs.iter().filter(|s| **s == 0).count() > 1 { "two_runs_write_one_session_stream" } else { "session_stream_file_order" };
+            ctx.res.oracle_violations.push(OracleViolation {
+                case_id,
+                what: format!("{n} clients posted input to session {} at the same instant ({}): {accepted} accepted; its stream reads {seqs:?} in file order{}", &sid[..8], if stepped { "stepped through session.spawn.guarded" } else { "released together" }, fresh.as_ref().err().map(|e| format!("; validated replay: {e}")).unwrap_or_default()),
+                class: class.into(),
+                replay: replay(sid, *accepted, &seqs),
+            });
+            ctx.res.bump(&format!("violation={class}"));
+        }
+    }
+    if let (Err(e), 0) = (&fresh, flagged) {
+        if ctx.res.oracle_violations.len() < 20 {
+            let class = first_order_violation(&hs).map(|_| "session_stream_file_order").unwrap_or("validated_replay_fails");
+            ctx.res.oracle_violations.push(OracleViolation { case_id: -1, what: format!("concurrent session inputs ({kind}): validated replay fails: {e}"), class: class.into(), replay: json!({"session_inputs": {"clients": n, "stepped": stepped, "tool_input": tool}}) });
+        }
+    }
+    if ctx.res.samples.len() < 3 {
+        if let Some((sid, acc)) = sessions.first() {
+            let seqs: Vec<u64> = hs.iter().filter(|x| x.sid == *sid).map(|x| x.seq).collect();
+            ctx.res.samples.push(replay(sid, *acc, &seqs));
+        }
+    }
+    drop(engine);
+    drop(rt);
+}
+
 /// executable class of an order violation (computed on the failing case)
 fn classify(setup: &[Setup], hs: &[Hdr], before_len: usize, after: &[u8]) -> String {
     // which stream is broken, and was that thread created during the concurrent phase?
@@ -941,6 +1175,20 @@ fn main() {
         }
     }
 
+    // ---- concurrent inputs to ONE session: the started-guard of spawn_session is what makes a session
+    // stream single-writer.  Stepped (deterministic, compared with the model) and raced (spin gate).
+    let mut wsg = CaseWriter::new(&a.out.join("sg"), "Model.Frames Model.Log Model.ContStore Model.SessGuard", "check_case_sg", "model_obs_sg", 40).with_base(1_000_000);
+    for (n, tool) in [(2usize, false), (3, false), (4, true), (2, true)] {
+        if !ctx.stop() {
+            session_race(&mut ctx, &mut wsg, n, true, if thorough { 12 } else { 3 }, tool);
+        }
+    }
+    for (n, rounds, tool) in [(2usize, 60u32, false), (4, 20, false), (3, 20, true)] {
+        if !ctx.stop() {
+            session_race(&mut ctx, &mut wsg, n, false, if thorough { rounds * 6 } else { rounds }, tool);
+        }
+    }
+
     // ---- exhaustive two-actor cases
     let pairs: Vec<(Op, Op)> = vec![
         (Op::Append { t: 4, th: 0 }, Op::Append { t: 4, th: 0 }),
@@ -985,8 +1233,9 @@ fn main() {
     }
 
     ctx.w.flush();
+    wsg.flush();
     ctx.res.distinct_nontrivial = ctx.distinct.count();
-    ctx.res.case_files = ctx.w.files.iter().map(|p| p.display().to_string()).collect();
+    ctx.res.case_files = ctx.w.files.iter().chain(wsg.files.iter()).map(|p| p.display().to_string()).collect();
     ctx.res.write(&a.out);
     println!("c01: {} schedules, {} oracle violations", ctx.leaves, ctx.res.oracle_violations.len());
 }
